@@ -76,6 +76,9 @@ theorem step_timeout (c : Conn) (tag : String) :
       simp only [resolve_dead, takeReq_dead, deletePending]
       split <;> rfl
 
+/-- the caller's `read` takes the result out of the request -/
+def markRead (q : Req) : Req := { q with errBuf := none, done := true, read := true }
+
 theorem step_read (c : Conn) (tag : String) :
     step c (.read tag) = match getReq c tag with
       | none => (c, .readRes none)
@@ -83,7 +86,7 @@ theorem step_read (c : Conn) (tag : String) :
         if r.read then (c, .readAgain)
         else match r.errBuf with
           | none => (c, .readRes none)
-          | some e => (updReq c tag fun q => { q with errBuf := none, done := true, read := true }, .readRes (some (e, r))) := by
+          | some e => (updReq c tag markRead, .readRes (some (e, r))) := by
   simp only [step]
   rfl
 
@@ -406,9 +409,8 @@ theorem rdRel_takeReq (c : Conn) (sid : Nat) (tag : String) (hu : ∀ t, (sid, t
 theorem rdRel_resolve (c : Conn) (tag : String) (e : Err) : RdRel c (resolve c tag e) :=
   rdRel_updReq c tag _ (fun r h => (Req.resolve_le r e).tag.trans h) (fun r _ => Req.resolve_le r e)
 
-theorem Inv.readEvent {c : Conn} (h : Inv c) (tag : String) :
-    Inv (updReq c tag fun q => { q with errBuf := none, done := true, read := true }) := by
-  refine h.map (fun q => if q.tag == tag then { q with errBuf := none, done := true, read := true } else q) ?_ rfl ?_
+theorem Inv.readEvent {c : Conn} (h : Inv c) (tag : String) : Inv (updReq c tag markRead) := by
+  refine h.map (fun q => if q.tag == tag then markRead q else q) ?_ rfl ?_
     (TableOK.of_eq rfl) (List.Sublist.refl _) rfl rfl (.inl rfl)
   · intro r; split <;> rfl
   · intro r _
